@@ -246,14 +246,14 @@ def findApprox (l : List Config) (x : Config) : Option Nat := l.findIdx? (fun c 
 `x` is (even approximately) not one of the duplicate-filtered candidates and a free optimiser
 output is not possible for this optimizer -/
 def guessPick (on : Bool) (sampled cands : List Config) (x : Config) (freeAllowed : Bool) :
-    Option (Pick Config × String) :=
+    Option (Pick Config Config × String) :=
   let f := filterDup on sampled cands
   match findExact f x with
-  | some i => some (.idx i, "idx")
+  | some i => some (.idx (fun _ => i), "idx")
   | none =>
     match findApprox f x with
-    | some i => some (.free x i, "idx~")
-    | none => if freeAllowed then some (.free x 0, "free") else none
+    | some i => some (.free x (fun _ => i), "idx~")
+    | none => if freeAllowed then some (.free x (fun _ => 0), "free") else none
 
 /-- the argsort handed to the model for one qLCB slot: the observed index first, then every
 other index (so that the model may not repeat a candidate while others are left) -/
@@ -303,9 +303,9 @@ def applyPending (d : Decl) (freeAllowed : Bool) (r : Replay) (want : Option Con
     if draws.length != expected then
       { r with mismatch := some s!"tell: the model expects {expected} Space.rvs draw(s), the implementation made {draws.length}", pending := none }
     else
-    let pick? : Option (Pick Config × String) :=
+    let pick? : Option (Pick Config Config × String) :=
       match want with
-      | none => some (.idx 0, "unobserved")
+      | none => some (.idx (fun _ => 0), "unobserved")
       | some x => guessPick r.c.opt.filterOn r.c.opt.sampled cands x freeAllowed
     match pick? with
     | none =>
@@ -337,15 +337,16 @@ def guessAskEnv (freeAllowed : Bool) (c : Cbo Config) (o : RoundObs) (path : Str
     Except String (AskEnv Config Config) :=
   let s := c.opt
   let d0 := o.askDraws.headD []
-  let dummyFit : Fit Config Config := { cands := [], pick := .idx 0 }
-  let base : AskEnv Config Config := { cands := d0, copyFit := dummyFit, steps := [], orders := [] }
+  let dummyFit : Fit Config Config := { cands := [], pick := .idx (fun _ => 0) }
+  let base : AskEnv Config Config :=
+    { cands := d0, copyFit := dummyFit, steps := [], orders := fun _ => [], refresh := dummyFit }
   if path == "topk" then
     match s.last with
     | none => .ok base
     | some l =>
       match indexAll l o.X with
       | none => .error "a topk proposal is not a row of the last candidate sample"
-      | some idx => .ok { base with orders := [idx] }
+      | some idx => .ok { base with orders := fun _ => [idx] }
   else if path == "boltzmann" then
     match s.last with
     | none => .ok base
@@ -358,7 +359,7 @@ def guessAskEnv (freeAllowed : Bool) (c : Cbo Config) (o : RoundObs) (path : Str
         let draws := (rest.foldl (fun (acc : List Nat × List Nat) i =>
           if acc.2.contains i then (acc.1 ++ List.replicate 101 i, acc.2 ++ [i])
           else (acc.1 ++ [i], acc.2 ++ [i])) ([], [i0])).1
-        .ok { base with orders := [[i0], draws] }
+        .ok { base with orders := fun _ => [[i0], draws] }
   else if path == "qLCB" then
     match s.nextX with
     | none => .ok base
@@ -366,7 +367,7 @@ def guessAskEnv (freeAllowed : Bool) (c : Cbo Config) (o : RoundObs) (path : Str
       let f := filterDup s.filterOn (s.sampled ++ [x0]) d0
       match indexAllFresh f (o.X.drop 1) with
       | none => .error "a qUCB proposal is not one of the duplicate-filtered candidates"
-      | some idx => .ok { base with orders := idx.map (fun i => padOrder i d0.length) }
+      | some idx => .ok { base with orders := fun l => idx.map (fun i => padOrder i l.length) }
   else if path == "constant-liar" then
     -- the copy inherits `sampled`; step j selects X[j] from draws[j] filtered against
     -- sampled ++ X[0..j)
@@ -408,14 +409,42 @@ def replayRound (d : Decl) (freeAllowed : Bool) (r : Replay) (o : RoundObs) : Re
       let uses := fitted && (o.n == 1 || r.c.strat.isQ)
       applyPending d freeAllowed r (if uses then o.X.head? else none)
   if r1.mismatch.isSome then r1 else
-  -- 2. the ask
-  let (path, expectedDraws) := askPath r1.c.opt o.n r1.c.strat
-  if o.askDraws.length != expectedDraws then
-    { r1 with mismatch := some s!"ask({o.n}) [{path}]: the model expects {expectedDraws} Space.rvs draw(s), the implementation made {o.askDraws.length}" }
+  -- 2. asked again before any tell: `update_next()` comes first (one draw if a model is fitted)
+  let s1 := r1.c.opt
+  let refreshing := r1.c.asked && s1.nextX.isSome
+  let nRefresh := if refreshing then 1 else 0
+  let fittedNow := (s1.nInit ≤ 0 ∧ s1.dummy = false)
+  let usesNext := fittedNow && (o.n == 1 || r1.c.strat.isQ)
+  let dummyFit : Fit Config Config := { cands := [], pick := .idx (fun _ => 0) }
+  let refresh? : Option (Fit Config Config × String) :=
+    if refreshing then
+      let cands := o.askDraws.headD []
+      match (if usesNext then o.X.head? else none) with
+      | none => some ({ cands, pick := .idx (fun _ => 0) }, "unobserved")
+      | some x =>
+        match guessPick s1.filterOn s1.sampled cands x freeAllowed with
+        | none => none
+        | some (p, label) => some ({ cands, pick := p }, label)
+    else some (dummyFit, "")
+  match refresh? with
+  | none => { r1 with mismatch := some s!"ask({o.n}) again before a tell: the proposal {showConfig (o.X.headD [])} is not one of the duplicate-filtered candidates drawn by update_next" }
+  | some (refreshFit, rlabel) =>
+  -- the optimizer state the ask itself starts from (glue: only used to guess the environment)
+  let opt0? : Option (Opt Config) :=
+    if r1.c.asked then (updateNext (idOps d) s1 refreshFit).toOption else some s1
+  match opt0? with
+  | none => { r1 with mismatch := some s!"ask({o.n}) again before a tell: model's update_next raises" }
+  | some opt0 =>
+  let cg : Cbo Config := { r1.c with opt := opt0 }
+  let o' : RoundObs := { o with askDraws := o.askDraws.drop nRefresh }
+  let (path, expectedDraws) := askPath opt0 o.n r1.c.strat
+  if o.askDraws.length != expectedDraws + nRefresh then
+    { r1 with mismatch := some s!"ask({o.n}) [{path}{if r1.c.asked then ", asked again" else ""}]: the model expects {expectedDraws + nRefresh} Space.rvs draw(s), the implementation made {o.askDraws.length}" }
   else
-  match guessAskEnv freeAllowed r1.c o path with
+  match guessAskEnv freeAllowed cg o' path with
   | .error e => { r1 with mismatch := some s!"ask({o.n}) [{path}]: {e}" }
-  | .ok env =>
+  | .ok env0 =>
+    let env := { env0 with refresh := refreshFit }
     match cboAsk (idOps d) r1.c o.n env with
     | .error e => { r1 with mismatch := some s!"ask({o.n}) [{path}]: model raises {errStr e}" }
     | .ok (c', Z) =>
@@ -423,7 +452,9 @@ def replayRound (d : Decl) (freeAllowed : Bool) (r : Replay) (o : RoundObs) : Re
       if Xm != o.X then
         { r1 with mismatch := some s!"ask({o.n}) [{path}]: model returns {(Json.arr (Xm.map ofConfig).toArray).compress}, implementation returned {(Json.arr (o.X.map ofConfig).toArray).compress}" }
       else
-        { r1 with c := c', sels := r1.sels ++ Z, paths := r1.paths ++ [path], replayed := r1.replayed + 1,
+        { r1 with c := c', sels := r1.sels ++ Z,
+                  paths := r1.paths ++ (if r1.c.asked then [s!"ask-again:{rlabel}"] else []) ++ [path],
+                  replayed := r1.replayed + 1,
                   pending := if o.hasTell then some (o.results, o.tellDraws) else none }
 
 def handleSession (j : Json) : Except String Json := do
